@@ -11,82 +11,89 @@
 (*   worker: select { task | done }  (both ready: either)                     *)
 (*   EmitSync caller: runs the pipeline and the sinks in ITS OWN goroutine,   *)
 (*         which Stop does not join (TrackSync = TRUE models joining it)      *)
-(* Contract (C18): no sink invocation begins after Stop has returned; Stop    *)
-(* returns (liveness); Stop is idempotent; Emit after Stop has no effect.     *)
+(* Contract (C18): no sink invocation begins after ANY Stop call has returned *)
+(* (a second, concurrent Stop waits for the teardown: StopWaits, the code      *)
+(* since repair d9d123b); Stop returns (liveness); Stop is idempotent; Emit    *)
+(* after Stop has no effect.                                                  *)
 (***************************************************************************)
 EXTENDS Integers, Sequences, FiniteSets, TLC
 
-CONSTANTS NRows, PoolCap, NWorkers, SyncCalls, TrackSync, Cep
-VARIABLES stopped, done, chanNil, inq, pool, ppc, wpc, spc, stopc, stopRet, began, late, emitted, flushed
-vars == <<stopped, done, chanNil, inq, pool, ppc, wpc, spc, stopc, stopRet, began, late, emitted, flushed>>
+CONSTANTS NRows, PoolCap, NWorkers, SyncCalls, TrackSync, Cep,
+          StopWaits   \* TRUE (the code since the repair): a Stop that lost the race for the stopped flag waits until the teardown is complete
+VARIABLES stopped, done, chanNil, inq, pool, ppc, wpc, spc, stopc, stopRet, began, late, emitted, flushed, anyRet
+vars == <<stopped, done, chanNil, inq, pool, ppc, wpc, spc, stopc, stopRet, began, late, emitted, flushed, anyRet>>
 Workers == 1..NWorkers
 Syncs == 1..SyncCalls
 Stoppers == {1, 2}
 
 Init == /\ stopped = FALSE /\ done = FALSE /\ chanNil = FALSE /\ inq = <<>> /\ pool = <<>>
         /\ ppc = "idle" /\ wpc = [w \in Workers |-> "idle"] /\ spc = [s \in Syncs |-> "start"]
-        /\ stopc = [s \in Stoppers |-> "start"] /\ stopRet = FALSE /\ began = 0 /\ late = 0 /\ emitted = 0 /\ flushed = FALSE
+        /\ stopc = [s \in Stoppers |-> "start"] /\ stopRet = FALSE /\ began = 0 /\ late = 0 /\ emitted = 0 /\ flushed = FALSE /\ anyRet = FALSE
 
 \* a sink invocation begins
-Begin == /\ began' = began + 1 /\ late' = IF stopRet THEN late + 1 ELSE late
+Begin == /\ began' = began + 1 /\ late' = IF anyRet THEN late + 1 ELSE late
 
 \* ---- producer: Emit (silent no-op once stopped / channel nil)
 EmitRow == /\ emitted < NRows /\ emitted' = emitted + 1
            /\ inq' = IF stopped \/ chanNil THEN inq ELSE Append(inq, emitted + 1)
-           /\ UNCHANGED <<stopped, done, chanNil, pool, ppc, wpc, spc, stopc, stopRet, began, late, flushed>>
+           /\ UNCHANGED <<stopped, done, chanNil, pool, ppc, wpc, spc, stopc, stopRet, began, late, flushed, anyRet>>
 \* ---- processor goroutine (tracked)
 ProcTake == /\ ppc = "idle" /\ ~done /\ inq # <<>> /\ inq' = Tail(inq) /\ ppc' = "sync"
-            /\ UNCHANGED <<stopped, done, chanNil, pool, wpc, spc, stopc, stopRet, began, late, emitted, flushed>>
+            /\ UNCHANGED <<stopped, done, chanNil, pool, wpc, spc, stopc, stopRet, began, late, emitted, flushed, anyRet>>
 ProcSyncSink == /\ ppc = "sync" /\ Begin /\ ppc' = "submit"
-                /\ UNCHANGED <<stopped, done, chanNil, inq, pool, wpc, spc, stopc, stopRet, emitted, flushed>>
+                /\ UNCHANGED <<stopped, done, chanNil, inq, pool, wpc, spc, stopc, stopRet, emitted, flushed, anyRet>>
 ProcSubmit == /\ ppc = "submit"
-              /\ \/ (Len(pool) < PoolCap /\ pool' = Append(pool, "t") /\ UNCHANGED <<began, late>>)
-                 \/ (Len(pool) >= PoolCap /\ done /\ UNCHANGED <<pool, began, late>>)             \* shutting down: drop
+              /\ \/ (Len(pool) < PoolCap /\ pool' = Append(pool, "t") /\ UNCHANGED <<began, late, anyRet>>)
+                 \/ (Len(pool) >= PoolCap /\ done /\ UNCHANGED <<pool, began, late, anyRet>>)             \* shutting down: drop
                  \/ (Len(pool) >= PoolCap /\ ~done /\ Begin /\ UNCHANGED pool)                    \* degraded: inline
               /\ ppc' = "idle"
-              /\ UNCHANGED <<stopped, done, chanNil, inq, wpc, spc, stopc, stopRet, emitted, flushed>>
+              /\ UNCHANGED <<stopped, done, chanNil, inq, wpc, spc, stopc, stopRet, emitted, flushed, anyRet>>
 ProcExit == /\ ppc = "idle" /\ done /\ ppc' = "exited"
-            /\ UNCHANGED <<stopped, done, chanNil, inq, pool, wpc, spc, stopc, stopRet, began, late, emitted, flushed>>
+            /\ UNCHANGED <<stopped, done, chanNil, inq, pool, wpc, spc, stopc, stopRet, began, late, emitted, flushed, anyRet>>
 \* ---- sink workers (tracked)
 WorkTake(w) == /\ wpc[w] = "idle" /\ pool # <<>> /\ pool' = Tail(pool) /\ wpc' = [wpc EXCEPT ![w] = "run"]
-               /\ UNCHANGED <<stopped, done, chanNil, inq, ppc, spc, stopc, stopRet, began, late, emitted, flushed>>
+               /\ UNCHANGED <<stopped, done, chanNil, inq, ppc, spc, stopc, stopRet, began, late, emitted, flushed, anyRet>>
 WorkRun(w) == /\ wpc[w] = "run" /\ Begin /\ wpc' = [wpc EXCEPT ![w] = "idle"]
-              /\ UNCHANGED <<stopped, done, chanNil, inq, pool, ppc, spc, stopc, stopRet, emitted, flushed>>
+              /\ UNCHANGED <<stopped, done, chanNil, inq, pool, ppc, spc, stopc, stopRet, emitted, flushed, anyRet>>
 WorkExit(w) == /\ wpc[w] = "idle" /\ done /\ wpc' = [wpc EXCEPT ![w] = "exited"]
-               /\ UNCHANGED <<stopped, done, chanNil, inq, pool, ppc, spc, stopc, stopRet, began, late, emitted, flushed>>
+               /\ UNCHANGED <<stopped, done, chanNil, inq, pool, ppc, spc, stopc, stopRet, began, late, emitted, flushed, anyRet>>
 \* ---- EmitSync caller: its own goroutine
 SyncEnter(s) == /\ spc[s] = "start"
                 /\ spc' = [spc EXCEPT ![s] = IF TrackSync /\ stopped THEN "refused" ELSE "pipeline"]
-                /\ UNCHANGED <<stopped, done, chanNil, inq, pool, ppc, wpc, stopc, stopRet, began, late, emitted, flushed>>
+                /\ UNCHANGED <<stopped, done, chanNil, inq, pool, ppc, wpc, stopc, stopRet, began, late, emitted, flushed, anyRet>>
 SyncSink(s) == /\ spc[s] = "pipeline" /\ Begin /\ spc' = [spc EXCEPT ![s] = "returned"]
-               /\ UNCHANGED <<stopped, done, chanNil, inq, pool, ppc, wpc, stopc, stopRet, emitted, flushed>>
+               /\ UNCHANGED <<stopped, done, chanNil, inq, pool, ppc, wpc, stopc, stopRet, emitted, flushed, anyRet>>
 \* ---- Stop callers
 StopCas(c) == /\ stopc[c] = "start"
-              /\ IF stopped THEN stopc' = [stopc EXCEPT ![c] = "returned"] /\ UNCHANGED stopped      \* idempotent: immediate return
-                 ELSE stopped' = TRUE /\ stopc' = [stopc EXCEPT ![c] = "close"]
+              /\ IF stopped THEN /\ stopc' = [stopc EXCEPT ![c] = IF StopWaits THEN "wait" ELSE "returned"]      \* the loser of the race
+                                  /\ anyRet' = (anyRet \/ ~StopWaits) /\ UNCHANGED stopped
+                 ELSE stopped' = TRUE /\ stopc' = [stopc EXCEPT ![c] = "close"] /\ UNCHANGED anyRet
               /\ UNCHANGED <<done, chanNil, inq, pool, ppc, wpc, spc, stopRet, began, late, emitted, flushed>>
+\* the loser returns once the teardown is complete (stopFinished closed)
+StopWaitDone(c) == /\ stopc[c] = "wait" /\ stopRet /\ stopc' = [stopc EXCEPT ![c] = "returned"] /\ anyRet' = TRUE
+                   /\ UNCHANGED <<stopped, done, chanNil, inq, pool, ppc, wpc, spc, stopRet, began, late, emitted, flushed>>
 StopClose(c) == /\ stopc[c] = "close" /\ done' = TRUE /\ stopc' = [stopc EXCEPT ![c] = "nil"]
-                /\ UNCHANGED <<stopped, chanNil, inq, pool, ppc, wpc, spc, stopRet, began, late, emitted, flushed>>
+                /\ UNCHANGED <<stopped, chanNil, inq, pool, ppc, wpc, spc, stopRet, began, late, emitted, flushed, anyRet>>
 StopNil(c) == /\ stopc[c] = "nil" /\ chanNil' = TRUE /\ stopc' = [stopc EXCEPT ![c] = "join"]
-              /\ UNCHANGED <<stopped, done, inq, pool, ppc, wpc, spc, stopRet, began, late, emitted, flushed>>
+              /\ UNCHANGED <<stopped, done, inq, pool, ppc, wpc, spc, stopRet, began, late, emitted, flushed, anyRet>>
 Joined == ppc = "exited" /\ (\A w \in Workers : wpc[w] = "exited") /\ (TrackSync => \A s \in Syncs : spc[s] # "pipeline")
 StopJoin(c) == /\ stopc[c] = "join" /\ Joined /\ stopc' = [stopc EXCEPT ![c] = "flush"]
-               /\ UNCHANGED <<stopped, done, chanNil, inq, pool, ppc, wpc, spc, stopRet, began, late, emitted, flushed>>
+               /\ UNCHANGED <<stopped, done, chanNil, inq, pool, ppc, wpc, spc, stopRet, began, late, emitted, flushed, anyRet>>
 StopFlush(c) == /\ stopc[c] = "flush"
-                /\ IF Cep THEN Begin /\ flushed' = TRUE ELSE UNCHANGED <<began, late, flushed>>        \* flushed matches are delivered inline, before the return
+                /\ IF Cep THEN Begin /\ flushed' = TRUE ELSE UNCHANGED <<began, late, flushed, anyRet>>        \* flushed matches are delivered inline, before the return
                 /\ stopc' = [stopc EXCEPT ![c] = "ret"]
-                /\ UNCHANGED <<stopped, done, chanNil, inq, pool, ppc, wpc, spc, stopRet, emitted>>
-StopReturn(c) == /\ stopc[c] = "ret" /\ stopRet' = TRUE /\ stopc' = [stopc EXCEPT ![c] = "returned"]
+                /\ UNCHANGED <<stopped, done, chanNil, inq, pool, ppc, wpc, spc, stopRet, emitted, anyRet>>
+StopReturn(c) == /\ stopc[c] = "ret" /\ stopRet' = TRUE /\ anyRet' = TRUE /\ stopc' = [stopc EXCEPT ![c] = "returned"]
                  /\ UNCHANGED <<stopped, done, chanNil, inq, pool, ppc, wpc, spc, began, late, emitted, flushed>>
 
 Next == EmitRow \/ ProcTake \/ ProcSyncSink \/ ProcSubmit \/ ProcExit
         \/ (\E w \in Workers : WorkTake(w) \/ WorkRun(w) \/ WorkExit(w))
         \/ (\E s \in Syncs : SyncEnter(s) \/ SyncSink(s))
-        \/ (\E c \in Stoppers : StopCas(c) \/ StopClose(c) \/ StopNil(c) \/ StopJoin(c) \/ StopFlush(c) \/ StopReturn(c))
+        \/ (\E c \in Stoppers : StopCas(c) \/ StopClose(c) \/ StopNil(c) \/ StopJoin(c) \/ StopFlush(c) \/ StopReturn(c) \/ StopWaitDone(c))
 Fair == /\ WF_vars(ProcTake \/ ProcSyncSink \/ ProcSubmit \/ ProcExit)
         /\ \A w \in Workers : WF_vars(WorkTake(w) \/ WorkRun(w) \/ WorkExit(w))
         /\ \A s \in Syncs : WF_vars(SyncEnter(s) \/ SyncSink(s))
-        /\ \A c \in Stoppers : WF_vars(StopCas(c) \/ StopClose(c) \/ StopNil(c) \/ StopJoin(c) \/ StopFlush(c) \/ StopReturn(c))
+        /\ \A c \in Stoppers : WF_vars(StopCas(c) \/ StopClose(c) \/ StopNil(c) \/ StopJoin(c) \/ StopFlush(c) \/ StopReturn(c) \/ StopWaitDone(c))
 Spec == Init /\ [][Next]_vars /\ Fair
 
 NoSinkAfterStopReturned == late = 0
